@@ -297,6 +297,7 @@ def one_case(ctx, prog, sspec=None, tag="__none__", label="gen"):
     correspond(ctx, "search", search, case)
     correspond(ctx, "fit", [search, model] + ([tag] if tag is not None else []), case)
     c07_comp.correspond_comp(ctx, model, search, tag, case, pyval, tokens_equal)  # composition route (IdentComp.lean)
+    c07_comp.correspond_search(ctx, search, case, pyval, tokens_equal)  # generated table of identifying settings
 
     base = fit_id(search, model, tag)
 
